@@ -125,6 +125,9 @@ impl<const K: usize> AffTree<K> {
                 // an infinite distance belongs to a candidate with an infinite coordinate, which
                 // is not a point of the polytope
                 .filter(|(_, dist)| dist.iter().all(|val| val.is_finite() && *val >= 0.))
+                // The margin above is taken on the normalized rows. For large coordinates or long
+                // rows it lies below the rounding error, so the plain containment test decides too.
+                .filter(|(point, _)| poly.contains(point))
                 .map(|(point, _)| point.insert_axis(Axis(1)))
                 .collect_vec();
 
